@@ -418,6 +418,20 @@ class C09:
         # guarantee the interesting shape early
         hist.append(mk_mut())
         hist.append(mk_create())
+        if rng.random() < 0.35 and metas:
+            # targeted shape: an operation that hashes candidates, a same-size in-place rewrite, the same operation again
+            m, _ = metas[-1]
+            names = sorted(n for n in live if live[n] > 0)
+            if names:
+                nm = rng.choice(names)
+                fresh_id[0] += 1
+                hist.append({"op": "rebuild", "meta": m, "search": ".", "dest": f"dest{fresh_id[0]}", "via": "lib"})
+                hist.append({"op": "rewrite", "path": "p/" + nm, "size": live[nm], "cseed": rng.randrange(1 << 30)})
+                fresh_id[0] += 1
+                hist.append({"op": "rebuild", "meta": m, "search": ".", "dest": f"dest{fresh_id[0]}",
+                             "via": rng.choice(["lib", "cli"])})
+                hist.append({"op": "recheck", "meta": m, "content": "p", "via": "lib"})
+                hist.append(mk_create())
         while len(hist) < nsteps:
             c = rng.random()
             if c < 0.28:
